@@ -179,6 +179,7 @@ impl<'a> Exec<'a> {
             released_this_call: vec![],
             ftp_log: vec![],
             do_flush: cfg.tlb,
+            rec_alias: cfg.rec_alias && matches!(cfg.view, View::Recursive { .. }),
         });
         let mut e = Exec { cfg: cfg.clone(), rs, probes: BOUNDARY.to_vec(), stats, scribble_salt: 1, enum_range_steps: 0 };
         set_run(&mut *e.rs as *mut RunState);
@@ -424,7 +425,10 @@ impl<'a> Exec<'a> {
             } {
                 let end_last = end | 0xfff;
                 let mut expected: BTreeSet<Path> = BTreeSet::new();
-                expected.insert(Path::ROOT);
+                if !self.rs.rec_alias {
+                    // (with a non-recursive alias the level-4 table itself is reached directly)
+                    expected.insert(Path::ROOT);
+                }
                 if start <= end {
                     for p in pre.tables.keys() {
                         if p.len > 0 && !(p.last_va() < start || p.va() > end_last) {
